@@ -134,7 +134,9 @@ def concretise(abstract, rnd):
             empties = [x for x in BUCKETS if exists[x] and count[x] == 0]
             absent = [x for x in BUCKETS if not exists[x]] or ["Z"]
             present = [x for x in BUCKETS if exists[x]]
-            if present and rnd.random() < 0.55:
+            if present and rnd.random() < 0.3:
+                ops.append({"op": "fail_create_duplicate", "b": rnd.choice(present)})
+            elif present and rnd.random() < 0.55:
                 ops.append({"op": "fail_upsert_unknown", "b": rnd.choice(present)})
             elif empties and rnd.random() < 0.6:
                 ops.append({"op": "fail_replace_last", "b": rnd.choice(empties)})
@@ -436,6 +438,8 @@ class Runner:
                             e, t = self.ev()
                             e.id = 987654321
                             ds[b].insert([e])          # an id no event has: a backend may raise or ignore it, it must not store anything
+                        elif o == "fail_create_duplicate":
+                            ds.create_bucket(b, "t", "c", "h", name="dup")     # the id exists already: rejected, nothing changes
                         elif o == "fail_delete_bucket":
                             ds.delete_bucket(b)
                         elif o == "fail_update_bucket":
